@@ -10,6 +10,7 @@ import (
 
 	"storj.io/drpc"
 	"storj.io/drpc/drpcerr"
+	"storj.io/drpc/verifsim"
 )
 
 // Msg is the message type of the simulated services: raw bytes.
@@ -21,12 +22,18 @@ var errUndecodable = errors.New("sim: undecodable message")
 // Unmarshal (dispatcher failure scenarios).
 type rawEnc struct{}
 
-func (rawEnc) Marshal(m drpc.Message) ([]byte, error) { return m.(*Msg).B, nil }
+func (rawEnc) Marshal(m drpc.Message) ([]byte, error) {
+	verifsim.Yield(verifsim.ClassApp, "enc.Marshal")
+	return m.(*Msg).B, nil
+}
 
 func (rawEnc) Unmarshal(b []byte, m drpc.Message) error {
 	if len(b) > 0 && b[0] == 0xEE {
 		return errUndecodable
 	}
+	// user code may be slow: the director may run anybody else before the
+	// bytes are copied out of the buffer lent by the stream
+	verifsim.Yield(verifsim.ClassApp, "enc.Unmarshal")
 	mm := m.(*Msg)
 	mm.B = append(mm.B[:0:0], b...)
 	return nil
